@@ -9,6 +9,7 @@
 
 #include "atomic_wrapper.h"
 #include "clock.h"
+#include "verif_hook.h"
 
 namespace yakushima {
 
@@ -33,8 +34,10 @@ public:
         bool desired{};
         for (;;) {
             for (size_t i = 1;; ++i) {
+                YK_VP(k_load, &root_lock_, 1, 0);
                 expected = root_lock_.load(std::memory_order_acquire);
                 if (expected) {
+                    YK_VP(k_spin, &root_lock_, 3, 0);
                     if (i >= 10) { break; }
                     _mm_pause();
                     continue;
@@ -43,6 +46,7 @@ public:
                 if (root_lock_.compare_exchange_weak(expected, desired,
                                                 std::memory_order_acq_rel,
                                                 std::memory_order_acquire)) {
+                    YK_VP(k_root_lock, &root_lock_, 0, 0);
                     return;
                 }
             }
@@ -52,6 +56,7 @@ public:
 
     void root_unlock() {
         root_lock_.store(false, std::memory_order_release);
+        YK_VP(k_root_unlock, &root_lock_, 0, 0);
     }
 
 private:
